@@ -7,6 +7,7 @@ package trzsz
 import (
 	"fmt"
 	"os"
+	"regexp"
 	"sort"
 	"strings"
 	"time"
@@ -48,7 +49,15 @@ func serverSaid(stdout string) string {
 
 // c01Oracle: safety (if a side reports success the destination equals the source and the reported
 // names are the names on disk) and liveness (fault-free world: both sides report success).
+var scratchPathRe = regexp.MustCompile(`/dev/shm/[A-Za-z0-9_./-]*?/x[0-9]+/`)
+
+// c01Oracle wraps c01Oracle0 and removes the per-execution scratch path from the message (so that
+// the same violation reads the same on every replay).
 func c01Oracle(w *world, r *worldResult, liveness bool) string {
+	return scratchPathRe.ReplaceAllString(c01Oracle0(w, r, liveness), "<scratch>/")
+}
+
+func c01Oracle0(w *world, r *worldResult, liveness bool) string {
 	s := r.Sched
 	if len(s.Crash) > 0 {
 		return "panic in a product goroutine (the process would have died): " + s.CrashString()
